@@ -53,14 +53,16 @@ RULE = (
     "real tokens of generated streams (producer / exchange / union / call-state methods, several identities) x mutation "
     "classes {every bit of the first/last envelope bytes + sampled middle, text substitutions, truncations, extensions, "
     "base64 re-encodings incl. all non-canonical trailing bits, cursor<->call swaps, cross-stream, foreign keys of "
-    "lengths 0/1/31/32/33/64, cross-identity incl. colliding concatenations, clock offsets around the TTL} x "
+    "lengths 0/1/31/32/33/64, cross-identity incl. colliding concatenations, clock offsets around the TTL, streams kept alive with gaps < TTL "
+    "and presented after the call token's expiry} x "
     "{warm, cold worker} x {continue, cancel}; a case is distinct by (stream, mutation, presentation) and non-trivial "
     "when the presented pair differs from the minted pair or the identity / clock differs"
 )
 PARTIAL = [
     "AEAD security itself (assumed; the harness only observes that every tampered envelope it tried was rejected)",
     "`.decode()` of the type-name / stream-id segments of an authentic call token (server-encoded str) is not modelled",
-    "on a call-state cache hit the call token is not consulted by design (outcome then independent of it; see C14)",
+    "on a call-state cache hit the call token's text is not consulted by design (a garbled call token next to a genuine "
+    "cursor is then served); its TTL still binds: the cache entry's deadline is the token's created_at + ttl (proved and checked)",
 ]
 MANIFEST = {
     "level": "proof",
@@ -138,7 +140,11 @@ class Env:
         return self.workers[k]
 
     def mint(self, spec: dict[str, Any]) -> dict[str, Any]:
-        """spec: {"method","n","ident","turns","key"(hex),"t"} -> {"cursors":[…], "call": b, "cid": b}"""
+        """spec: {"method","n","ident","turns","key"(hex),"t"[,"gap"]} -> {"cursors":[…], "ctimes":[…], "call": b, "cid": b}
+
+        `gap` (default 0) is the clock advance before each turn: a stream kept alive by a client, whose cursor is
+        re-minted (fresh) every turn while its call token ages.
+        """
         sk = T_canon(spec)
         if sk in self.streams:
             return self.streams[sk]
@@ -151,13 +157,16 @@ class Env:
         if r.status_code != 200 or cur is None or call is None:
             raise RuntimeError(f"init failed: {r.status_code} {T.error_message(r)}")
         cursors = [cur]
-        for _ in range(spec.get("turns", 0)):
+        ctimes = [int(spec["t"])]
+        for i in range(spec.get("turns", 0)):
+            self.patches.clock.now = float(spec["t"]) + (i + 1) * spec.get("gap", 0)
             r = w.exchange(spec["method"], cursors[-1], call, ident, kind=self.kind[spec["method"]])
             c2, _ = T.tokens_of(r)
             if r.status_code != 200 or c2 is None:
                 raise RuntimeError(f"turn failed: {r.status_code} {T.error_message(r)}")
             cursors.append(c2)
-        st = {"cursors": cursors, "call": call, "spec": spec}
+            ctimes.append(int(self.patches.clock.now))
+        st = {"cursors": cursors, "ctimes": ctimes, "call": call, "spec": spec}
         # the five call-token segments (for the model's cache rows) and the call id
         rec = self.patches.rec.by_raw.get(base64.b64decode(call))
         if rec is not None:
@@ -426,10 +435,13 @@ def run_case(ctx: Any, env: Env, case: dict[str, Any], uniform: dict[str, Any], 
     same_key = rec.key_id(serving_key) == rec.key_id(bytes.fromhex(spec["key"]))
     same_ident = T.ident_key(ident) == T.ident_key(tuple(spec["ident"]) if spec["ident"] is not None else None)
 
-    cur_ok = matched is not None and fresh(matched["spec"]["t"])
-    call_ok = matched is not None and call == matched["call"] and fresh(matched["spec"]["t"])
+    # "within the token TTL": the presented cursor (stamped when its turn minted it) and the stream's call token
+    # (stamped at /init) — the latter whether or not the server has to open it (a cached call must not outlive its token)
+    cur_ok = matched is not None and fresh(matched["ctimes"][matched["cursors"].index(cursor)])
+    call_fresh = matched is not None and fresh(matched["spec"]["t"])
+    call_ok = matched is not None and call == matched["call"]
     consulted = not live_hit
-    want_served = cur_ok and (call_ok or not consulted) and method == matched["spec"]["method"]
+    want_served = cur_ok and call_fresh and (call_ok or not consulted) and method == matched["spec"]["method"]
     nontrivial = not (cursor == cur0 and call == call0 and same_ident and same_key and int(now) == int(spec["t"]))
     tags = [f"mut:{tgt}:{mut.get('op')}" + (f":{mut.get('how')}" if mut.get("how") else ""), f"worker:{present['worker']}",
             f"op:{'cancel' if cancel else 'continue'}", f"method:{method}", f"outcome:{cls}",
@@ -448,11 +460,19 @@ def run_case(ctx: Any, env: Env, case: dict[str, Any], uniform: dict[str, Any], 
         if cls in ("ok", "in-band-error", "decode_error") or resp.status_code != 400:
             if cur_ok and matched is not None and method != matched["spec"]["method"]:
                 key = f"C12:cross-method-served:{cls}"  # C13's subject; reported here only if it shows up
+            elif cur_ok and not call_fresh and (call_ok or not consulted):
+                key = f"C12:expired-call-token-served:{'cache-hit' if live_hit else 'cache-miss'}"
+            elif matched is not None and not cur_ok and cursor == cur0 and call == call0:
+                key = f"C12:expired-cursor-served:{'cache-hit' if live_hit else 'cache-miss'}"
             elif _same_envelope(cursor, cur0) and _same_envelope(call, call0) and (cursor != cur0 or call != call0):
                 key = f"C12:noncanonical-base64-accepted:{'cursor' if cursor != cur0 else 'call'}"
             else:
                 key = f"C12:forged-accepted:{tgt}:{mkey}:{cls}"
-            fail(ctx, case, key, f"a text that is not a minted token for this key/identity/clock was not rejected with 400: status {resp.status_code} {cls}; hooks {hooks[:3]}")
+            why = ("the stream's call token is older than the TTL "
+                   f"(age {int(now) - int(matched['spec']['t'])}s > {env.ttl}s; cursor age {int(now) - matched['ctimes'][matched['cursors'].index(cursor)]}s) but the request was served"
+                   if key.startswith("C12:expired-call-token-served") and matched is not None else
+                   "a text that is not a minted token for this key/identity/clock was not rejected with 400")
+            fail(ctx, case, key, f"{why}: status {resp.status_code} {cls}; hooks {hooks[:3]}")
         else:
             if hooks:
                 fail(ctx, case, f"C12:hook-before-rejection:{hooks[0][0]}", f"rejected with {resp.status_code} but {hooks[:4]} ran first")
@@ -486,6 +506,14 @@ def run_case(ctx: Any, env: Env, case: dict[str, Any], uniform: dict[str, Any], 
             "opened_call": any(e[0] == "open_call_token" for e in log),
             "decode": [e[0] for e in log if e[0] in ("state_deserialize", "bind_call_state", "rehydrate")],
         }
+        # the deadline the cache now holds for this stream (model: `cacheDeadline`, i.e. `_call_cache_birth` + `put`)
+        if matched is not None and matched.get("cid") is not None and env.ttl > 0:
+            import math
+
+            ent = w.app._call_state_cache._entries.get((matched["cid"], w.app._call_state_cache._identity(T.auth_of(ident))))
+            if ent is not None:
+                observed["deadline"] = math.ceil(ent[0])
+                observed["deadline_req"] = {"ttl": env.ttl, "created": int(matched["spec"]["t"]), "now": int(now)}
         pending.append((case, model_req, observed))
 
 
@@ -494,6 +522,11 @@ def flush_k(ctx: Any, pending: list[Any]) -> None:
         pending.clear()
         return
     res = ctx.driver.batch([("Token.recover", m) for _c, m, _o in pending])
+    dl = [(c, o) for c, _m, o in pending if "deadline" in o]
+    for (case, obs), want in zip(dl, ctx.driver.batch([("Token.cacheDeadline", o["deadline_req"]) for _c, o in dl])):
+        if want != obs["deadline"]:
+            ctx.mismatch(case, {"deadline": want}, {"deadline": obs["deadline"], **obs["deadline_req"]},
+                         "call-state cache entry deadline (created_at + ttl): model vs implementation")
     for (case, _m, obs), r in zip(pending, res):
         result = r["result"]
         if isinstance(result, dict) and "ok" in result:
@@ -774,8 +807,11 @@ def k_response(ctx: Any, uniform: dict[str, Any]) -> None:
 # ------------------------------------------------------------------------------------------ campaign
 
 
-def stream_spec(method: str, n: int, ident: Any, turns: int = 1, key: bytes = MAIN_KEY, t: int = T0) -> dict[str, Any]:
-    return {"method": method, "n": n, "ident": list(ident) if ident is not None else None, "turns": turns, "key": key.hex(), "t": t}
+def stream_spec(method: str, n: int, ident: Any, turns: int = 1, key: bytes = MAIN_KEY, t: int = T0, gap: int = 0) -> dict[str, Any]:
+    d = {"method": method, "n": n, "ident": list(ident) if ident is not None else None, "turns": turns, "key": key.hex(), "t": t}
+    if gap:
+        d["gap"] = gap
+    return d
 
 
 def present(worker: str, ident: Any, method: str, now: float = T0 + 1, op: str = "continue", key: bytes | None = None) -> dict[str, Any]:
@@ -906,6 +942,26 @@ def campaign(ctx: Any, env: Env, uniform: dict[str, Any]) -> None:
                 for wk in ("warm", "cold"):
                     for op in ("continue", "cancel"):
                         go({"stream": sp, "mutation": {"target": "none", "op": "none"}, "present": present(wk, idt, m, now=t0 + d, op=op)})
+    flush_k(ctx, pending)
+
+    # 6. streams kept alive across the TTL: turns every `gap` seconds re-mint the cursor (always fresh) while the call
+    #    token ages; once the call token is older than the TTL the stream must be refused on every worker — the warm
+    #    one (its cache entry must not outlive the token) exactly like a cold one
+    base_t = T0 + 100_000
+    for i, gap in enumerate([10, 24, 25, 49, 50, 17, 7, 33][: ctx.budget(5, 8)]):
+        for j, m in enumerate(methods if full else [methods[i % len(methods)], methods[(i + 1) % len(methods)]]):
+            idt = alice if (i + j) % 2 == 0 else None
+            turns = env.ttl // gap
+            sp = stream_spec(m, 900 + 10 * i + j, idt, turns=turns, t=base_t + 1000 * (8 * i + j), gap=gap)
+            last = sp["t"] + turns * gap          # when the presented cursor was minted
+            for age in sorted({env.ttl - 1, env.ttl, env.ttl + 1, env.ttl + gap // 2, env.ttl + gap - 1, last - sp["t"] + env.ttl,
+                               last - sp["t"] + env.ttl + 1, 2 * env.ttl}):
+                if sp["t"] + age < last:
+                    continue
+                for wk in ("warm", "cold"):
+                    for op in ("continue", "cancel"):
+                        go({"stream": sp, "mutation": {"target": "none", "op": "none"},
+                            "present": present(wk, idt, m, now=sp["t"] + age, op=op)})
     flush_k(ctx, pending)
 
 
